@@ -24,6 +24,7 @@ Fixpoint grammar (h : peer -> bool) (l : list uev) : option (peer -> bool) :=
   | UClosed p :: t => if h p then grammar (upd h p false) t else None
   | UFail p _ :: t => if h p then None else grammar h t
   | UValidate _ :: t => grammar h t
+  | UNotif p :: t => if h p then grammar h t else None
   end.
 
 Lemma grammar_app h l1 l2 :
@@ -241,7 +242,7 @@ Qed.
 
 (* ------------------------------------------------------------------ prompt environment *)
 Definition prompt_op (o : op) : bool :=
-  match o with Gate _ => false | TaskDie _ g => negb g | _ => true end.
+  match o with Gate _ => false | TaskDie _ g | NotifyDie _ g => negb g | _ => true end.
 
 Record AInv (s : st) (h : peer -> bool) : Prop := mkAInv {
   a_task : forall t, In t (tasks s) ->
@@ -318,20 +319,37 @@ Proof.
 Qed.
 
 (* a step whose main handler is quiet keeps the invariant and the grammar state *)
+Lemma grammar_notifs h l : (forall q, In q l -> h q = true) -> grammar h (map UNotif l) = Some h.
+Proof.
+  induction l as [|a l IH]; cbn; auto. intros H. rewrite (H a) by auto. apply IH. auto.
+Qed.
+
+Lemma filter_all {A} (f : A -> bool) l : (forall x, In x l -> f x = true) -> filter f l = l.
+Proof.
+  induction l as [|a l IH]; cbn; auto. intros H. rewrite (H a) by auto. rewrite IH; auto.
+Qed.
+
+Lemma filter_none {A} (f : A -> bool) l : (forall x, In x l -> f x = false) -> filter f l = [].
+Proof.
+  induction l as [|a l IH]; cbn; auto. intros H. rewrite (H a) by auto. apply IH; auto.
+Qed.
+
 Lemma step_of_quiet c s o h s1 ev calls s' ev' calls' :
-  AInv s h -> main_handler c s o = Some (s1, ev, calls) -> quiet s (Some (s1, ev, calls)) ->
+  AInv s h -> (forall q, In q (notifs_of s o) -> h q = true) ->
+  main_handler c s o = Some (s1, ev, calls) -> quiet s (Some (s1, ev, calls)) ->
   step c s o = Some (s', ev', calls') -> grammar h ev' = Some h /\ AInv s' h.
 Proof.
-  intros A M Q. unfold step. rewrite M.
+  intros A NF M Q. unfold step. rewrite M.
   destruct Q as (T & L & N0 & HO & SO & F).
   destruct (drain s1 ev) as [[s2 dr] ks] eqn:D.
   destruct (drain_quiet s ev F _ _ _ _ D) as (-> & P2 & T2 & L2 & N2 & HO2 & _).
+  rewrite filter_all by (intros q Hq; rewrite HO2, HO; destruct A as [_ _ _ _ _ A6]; rewrite A6; auto).
   destruct (dropped_validations s2 dr) as [[[s3 ev3] calls3]|] eqn:DV; [|discriminate].
   destruct (dropped_quiet _ _ _ _ _ DV) as [Q3 ->]. cbn [kill_tasks app drain].
   intros H; inversion H; subst. rewrite app_nil_r.
   destruct Q3 as (T3 & L3 & N3 & HO3 & SO3 & _).
   split.
-  - eapply grammar_quiet; eauto. apply A.
+  - rewrite grammar_app. erewrite grammar_quiet; eauto; [|apply A]. now apply grammar_notifs.
   - eapply AInv_quiet; eauto; try congruence.
     intros q k. rewrite (SO3 q k). rewrite P2. apply SO.
 Qed.
@@ -371,13 +389,16 @@ Proof.
 Qed.
 
 Lemma step_of_closes c s o h p s1 calls s' ev' calls' :
-  AInv s h -> main_handler c s o = Some (s1, [UClosed p], calls) -> closes s p s1 ->
+  AInv s h -> (forall q, In q (notifs_of s o) -> q = p) ->
+  main_handler c s o = Some (s1, [UClosed p], calls) -> closes s p s1 ->
   step c s o = Some (s', ev', calls') ->
   grammar h ev' = Some (upd h p false) /\ AInv s' (upd h p false).
 Proof.
-  intros A M C. unfold step. rewrite M.
+  intros A NF M C. unfold step. rewrite M.
   destruct (AInv_closes s h p s1 A C) as (A' & Hh & (k & Lk & Rk) & HO).
-  cbn [drain]. rewrite HO, Lk, Rk. cbn [app dropped_validations ok kill_tasks drain].
+  cbn [drain]. rewrite HO, Lk, Rk.
+  rewrite filter_none by (intros q Hq; apply NF in Hq; subst q; setters; apply upd_same).
+  cbn [map app dropped_validations ok kill_tasks drain].
   intros H; inversion H; subst. cbn [app grammar]. rewrite Hh. auto.
 Qed.
 
@@ -421,11 +442,11 @@ Proof.
 Qed.
 
 Lemma step_of_opens c s o h p d s1 calls s' ev' calls' :
-  AInv s h -> main_handler c s o = Some (s1, [UOpened p d], calls) -> opens s p s1 ->
+  AInv s h -> notifs_of s o = [] -> main_handler c s o = Some (s1, [UOpened p d], calls) -> opens s p s1 ->
   step c s o = Some (s', ev', calls') ->
   grammar h ev' = Some (upd h p true) /\ AInv s' (upd h p true).
 Proof.
-  intros A M C. unfold step. rewrite M.
+  intros A NF M C. unfold step. rewrite M, NF. cbn [filter map].
   destruct (AInv_opens s h p s1 A C) as (A' & Hh).
   cbn [drain app dropped_validations ok kill_tasks].
   intros H; inversion H; subst. cbn [app grammar]. rewrite Hh. auto.
@@ -573,10 +594,25 @@ Proof.
   refine (conj _ (conj _ (conj _ (conj _ (conj _ _))))); auto. intros r k. rewrite P. tauto.
 Qed.
 
+Lemma shape_task_die s h p : AInv s h -> shape s (task_die_op s p false).
+Proof.
+  intros A. pose proof A as [A1 A2 A3 A4 A5 A6]. unfold task_die_op. cbn [orb].
+  destruct (lastt s p) as [k|] eqn:Lk; [|apply sh_quiet; quiet_tac].
+  destruct (find_task k (tasks s)) as [t|] eqn:F; [|apply sh_quiet; quiet_tac].
+  destruct (find_task_some _ _ _ F) as [In1 Id1].
+  destruct (A1 t In1) as (B1 & B2 & B3 & B4 & B5). rewrite B1, B2.
+  destruct (A4 p k Lk) as [_ Pe]. specialize (Pe t In1 Id1). rewrite Pe, Id1 in B3.
+  apply sh_closes. exists k. unfold on_shutdown. setters. rewrite B3.
+  unfold task_closed. setters. rewrite find_task_remove. setters.
+  repeat apply conj; auto.
+  + now rewrite upd_same.
+  + intros r Hr. now rewrite upd_other.
+Qed.
+
 Lemma main_shape c s o h : AInv s h -> prompt_op o = true -> shape s (main_handler c s o).
 Proof.
   intros A PO. pose proof A as [A1 A2 A3 A4 A5 A6].
-  destruct o as [p|p|p|p|p|p|p b|p b|p a|p|p|p|p|p g|p|p|p]; cbn [main_handler].
+  destruct o as [p|p|p|p|p|p|p b|p b|p a|p|p|p|p|p g|p|p|p|p|p g]; cbn [main_handler].
   - destruct (conn s p); [apply sh_quiet; quiet_tac|].
     apply shape_of_quiet. eapply quiet_frame; [|apply quiet_on_established]. repeat split.
   - destruct (conn s p); [|apply sh_quiet; quiet_tac].
@@ -600,24 +636,29 @@ Proof.
   - destruct (hopen s p); [apply sh_quiet; quiet_tac|]. apply shape_of_quiet, quiet_on_open.
   - destruct (hopen s p); [|apply sh_quiet; quiet_tac]. eapply shape_on_close; eauto.
   - apply sh_quiet. quiet_tac.
-  - (* TaskDie *)
-    cbn in PO. destruct g; [discriminate|]. cbn [orb].
-    destruct (lastt s p) as [k|] eqn:Lk; [|apply sh_quiet; quiet_tac].
-    destruct (find_task k (tasks s)) as [t|] eqn:F; [|apply sh_quiet; quiet_tac].
-    destruct (find_task_some _ _ _ F) as [In1 Id1].
-    destruct (A1 t In1) as (B1 & B2 & B3 & B4 & B5). rewrite B1, B2.
-    destruct (A4 p k Lk) as [_ Pe]. specialize (Pe t In1 Id1). rewrite Pe, Id1 in B3.
-    apply sh_closes. exists k. unfold on_shutdown. setters. rewrite B3.
-    unfold task_closed. setters. rewrite find_task_remove. setters.
-    repeat apply conj; auto.
-    + now rewrite upd_same.
-    + intros r Hr. now rewrite upd_other.
+  - cbn in PO. destruct g; [discriminate|]. eapply shape_task_die; eauto.
   - (* Release *)
     rewrite map_ungate_id by (intros t Ht; destruct (A1 t Ht) as (B1 & B2 & _); auto).
     rewrite finish_tasks_id by (intros t Ht; destruct (A1 t Ht) as (B1 & B2 & _); auto).
     cbn [run_shutdowns N.eqb]. apply sh_quiet. unfold run_shutdowns. cbn. quiet_tac.
   - destruct (conn s p); apply sh_quiet; quiet_tac.
   - discriminate.
+  - apply sh_quiet. quiet_tac.
+  - cbn in PO. destruct g; [discriminate|]. eapply shape_task_die; eauto.
+Qed.
+
+Lemma notifs_facts s h o q : AInv s h -> In q (notifs_of s o) -> q = op_peer o /\ h q = true.
+Proof.
+  intros [A1 A2 A3 A4 A5 A6] H.
+  assert (G : forall p, In q (match lastt s p with Some k => if running s k then [p] else [] | None => [] end) ->
+                        q = p /\ h q = true).
+  { intros p Hq. destruct (lastt s p) as [k|] eqn:Lk; [|destruct Hq].
+    unfold running in Hq. destruct (find_task k (tasks s)) as [t|] eqn:F; [|destruct Hq].
+    destruct (t_closing t) eqn:TC; [destruct Hq|]. destruct Hq as [<-|[]]. split; auto.
+    destruct (find_task_some _ _ _ F) as [In1 Id1]. destruct (A4 p k Lk) as [_ Pe].
+    specialize (Pe t In1 Id1). destruct (A1 t In1) as (_ & _ & B3 & _). rewrite Pe in B3.
+    rewrite A5, B3. reflexivity. }
+  destruct o; cbn in H; try destruct H; cbn [op_peer]; apply G; auto.
 Qed.
 
 Lemma step_inv c s o h s' ev calls :
@@ -627,9 +668,18 @@ Proof.
   intros A PO S. pose proof (main_shape c s o h A PO) as Sh.
   destruct (main_handler c s o) as [[[s1 ev1] cl1]|] eqn:M.
   - inversion Sh; subst.
-    + exists h. eapply step_of_quiet; eauto.
-    + eexists. eapply step_of_closes; eauto.
+    + exists h. eapply step_of_quiet; eauto. intros q Hq. eapply notifs_facts; eauto.
+    + eexists. eapply step_of_closes; eauto. intros q Hq.
+      destruct (notifs_facts _ _ _ _ A Hq) as [-> _].
+      (* the closing peer is the peer of the event *)
+      destruct o; cbn in Hq; try destruct Hq; cbn [op_peer main_handler] in *;
+        unfold ok, task_die_op in M;
+        repeat match type of M with context [match ?x with _ => _ end] => destruct x end;
+        inversion M; reflexivity.
     + eexists. eapply step_of_opens; eauto.
+      destruct o; cbn; auto; exfalso; cbn [main_handler] in M;
+        unfold ok, task_die_op in M;
+        repeat match type of M with context [match ?x with _ => _ end] => destruct x end; inversion M.
   - unfold step in S. rewrite M in S. discriminate.
 Qed.
 
@@ -706,7 +756,7 @@ Qed.
 Lemma main_opened c s o s1 ev cl p d :
   main_handler c s o = Some (s1, ev, cl) -> In (UOpened p d) ev -> accepted_in (ps s p) d.
 Proof.
-  destruct o as [q|q|q|q|q|q|q b|q b|q a|q|q|q|q|q g|q|q|q]; cbn [main_handler]; intros M HIn.
+  destruct o as [q|q|q|q|q|q|q b|q b|q a|q|q|q|q|q g|q|q|q|q|q g]; cbn [main_handler]; intros M HIn.
   - destruct (conn s q); [inversion M; subst; destruct HIn|].
     exfalso. eapply quiet_no_opened; [|exact HIn]. rewrite <- M. apply quiet_on_established.
   - destruct (conn s q); [|inversion M; subst; destruct HIn].
@@ -752,7 +802,7 @@ Proof.
     destruct x as [|b|po| |y|d0 o i|k]; try (intros M; inversion M; subst; destruct HIn).
     destruct (signal s k) as [s2 e2] eqn:Sg. intros M; inversion M; subst. exfalso. eapply signal_ev; eauto.
   - inversion M; subst; destruct HIn.
-  - revert M. destruct (lastt s q); [|intros M; inversion M; subst; destruct HIn].
+  - revert M. unfold task_die_op. destruct (lastt s q); [|intros M; inversion M; subst; destruct HIn].
     destruct (find_task n (tasks s)) as [t|]; [|intros M; inversion M; subst; destruct HIn].
     destruct (t_closing t); [intros M; inversion M; subst; destruct HIn|].
     destruct (g || t_gated t); intros M; inversion M; subst; cbn in HIn; intuition discriminate.
@@ -760,6 +810,11 @@ Proof.
     exfalso. eapply finish_tasks_ev; eauto.
   - destruct (conn s q); inversion M; subst; destruct HIn.
   - revert M. destruct (lastt s q); intros M; inversion M; subst; destruct HIn.
+  - inversion M; subst; destruct HIn.
+  - revert M. unfold task_die_op. destruct (lastt s q); [|intros M; inversion M; subst; destruct HIn].
+    destruct (find_task n (tasks s)) as [t|]; [|intros M; inversion M; subst; destruct HIn].
+    destruct (t_closing t); [intros M; inversion M; subst; destruct HIn|].
+    destruct (g || t_gated t); intros M; inversion M; subst; cbn in HIn; intuition discriminate.
 Qed.
 
 Lemma task_dies_ev s k s' ev p d : task_dies s k = (s', ev) -> ~ In (UOpened p d) ev.
@@ -790,7 +845,9 @@ Proof.
   destruct (drain s4 ev4) as [[s5 x] y]. intros H; inversion H; subst.
   intros HIn. apply in_app_or in HIn. destruct HIn as [HIn|HIn].
   - eapply main_opened; eauto.
-  - exfalso. eapply kill_tasks_ev; eauto.
+  - apply in_app_or in HIn. destruct HIn as [HIn|HIn].
+    + exfalso. apply in_map_iff in HIn. destruct HIn as (z & E & _). discriminate.
+    + exfalso. eapply kill_tasks_ev; eauto.
 Qed.
 
 (* ------------------------------------------------------------------ Closed on disconnect / user close *)
@@ -920,7 +977,7 @@ Ltac unfold_handlers M :=
   cbn [main_handler] in M;
   unfold on_established, on_open, on_closed, on_sub_out, on_sub_in, on_open_fail, on_dial_fail, on_close,
          on_validation, on_hs_out_ok, on_hs_in_ok, on_hs_err, on_timer, hs_finish, svc_open, svc_force,
-         ok, ok_ev in M;
+         task_die_op, ok, ok_ev in M;
   setters_in M.
 
 Ltac peer_facts H p :=
@@ -956,6 +1013,7 @@ Proof.
   - split_all; try (SL_close H; try pf H; fail). apply SL_on_shutdown. SL_close H.
   - match type of M with context [finish_tasks ?a ?b] => destruct (finish_tasks a b) as [[? ?] ?] end.
     split_all. unfold run_shutdowns. match goal with |- context [if ?b then _ else _] => destruct b end; [|apply SL_on_shutdown]; SL_close H.
+  - split_all; try (SL_close H; try pf H; fail). apply SL_on_shutdown. SL_close H.
 Qed.
 
 (* ---- substream-id bookkeeping: transport requests, pending_outbound and peer states agree ---- *)
@@ -1150,6 +1208,7 @@ Proof.
   - split_all; try (SB_close B; fail). apply SB_on_shutdown. SB_q_close B.
   - match type of M with context [finish_tasks ?a ?b] => destruct (finish_tasks a b) as [[? ?] ?] end.
     split_all. unfold run_shutdowns. match goal with |- context [if ?b then _ else _] => destruct b end; [|apply SB_on_shutdown]; SB_q_close B.
+  - split_all; try (SB_close B; fail). apply SB_on_shutdown. SB_q_close B.
 Qed.
 
 Ltac sl_contra H := match goal with E : ps _ ?r = _ |- _ => solve [peer_facts H r] end.
@@ -1198,6 +1257,7 @@ Proof.
     + intros H. apply IH in H. exact H.
     + destruct (drain (set_hopen s p false) t) as [[a b] c0] eqn:E. intros H; injection H as <- _ _.
       apply IH in E. exact E.
+    + intros H. eapply IH; eauto.
     + intros H. eapply IH; eauto.
 Qed.
 
